@@ -36,7 +36,9 @@ DECLARED_OUT_OF_REACH = {
     "time_fn": "dateparser/strftime dominated",
     "timel_fn": "appends to its symbolic args list (engine: no mutation of symbolic lists) then calls time_fn",
     "dateformat_fn": "dateparser dominated",
-    "fullurl_fn": "string methods on values of the interwiki table (sqlite cache of a network resource)",
+    "fullurl_fn": "string methods on values of the interwiki table (sqlite cache of a network resource): "
+                  "`interwiki_map[prefix]['url'].replace(...)` is a call on an opaque value whose shape only the "
+                  "remote API fixes",
 }
 
 # callee contracts assumed here and owned by other properties
